@@ -42,8 +42,12 @@ def is_vector(v):
     return isinstance(v, PObj) and isinstance(v.cls, ClassVal) and v.cls.full == f"{V}:Vector"
 
 
-def make_orientation(I, term):
+ROT_AXIOMS = ("rot", "rot.group", "rot.euler", "rot.planar")  # axiom groups available wherever C07 contracts handle orientations
+
+
+def make_orientation(I, term, axioms=ROT_AXIOMS):
     """A concrete scenic.core.vectors.Orientation wrapping the abstract rotation `term`."""
+    G.use(I.eng, *axioms)
     o = PObj(repo_class(f"{V}:Orientation"))
     r = G.make_rotation(I, term)
     o.fields.update(r=r, q=r.fields["as_quat"].fn())
@@ -53,16 +57,17 @@ def make_orientation(I, term):
 class OrientationT(C.Type):
     """Orientation with an arbitrary (abstract) rotation; `yaw_only` makes it the planar rotation by a symbolic yaw."""
 
-    def __init__(self, yaw_only=False):
+    def __init__(self, yaw_only=False, axioms=ROT_AXIOMS):
         self.yaw_only = yaw_only
+        self.axioms = axioms
 
     def fresh(self, eng, name, I=None):
         if self.yaw_only:
             a = eng.fresh_real(name + ".yaw")
-            o = make_orientation(I, EULER(a.e, 0, 0))
+            o = make_orientation(I, EULER(a.e, 0, 0), self.axioms)
             o.yaw_sym = a
         else:
-            o = make_orientation(I, z3.Const(eng.fresh_name(name + ".rotation"), G.ROT))
+            o = make_orientation(I, z3.Const(eng.fresh_name(name + ".rotation"), G.ROT), self.axioms)
         o.tag = name
         return o
 
@@ -80,6 +85,7 @@ def rot(o):
 
 
 def apply3(r, v):
+    v = [z3.simplify(rz(c)) for c in v]  # canonical argument terms (syntactically equal to the interpreter's)
     return tuple(f(r, *v) for f in AP)
 
 
